@@ -4,7 +4,7 @@
 (* combination of identifier, serde(rename), rename_all rule and attribute spelling. Each state     *)
 (* prints the JSON keys layer P requires for both fields.                                           *)
 EXTENDS SerdeAttrs, TLC, Json
-CONSTANTS Idents, Renames, RuleSet, Spellings, EnumRules, EnumFieldRules
+CONSTANTS Idents, Renames, RuleSet, Spellings, EnumRules, EnumFieldRules, Layouts
 VARIABLES c
 
 \* identifiers as character sequences; raw = written r#ident in Rust
@@ -36,7 +36,7 @@ RenameOf(n) == CASE n = "none" -> None
                  [] n = "$ref" -> <<"$","r","e","f">>            \* JSON-Schema / MongoDB style keys: `$` means something in Kotlin strings, nothing in Go tags
 
 Init == c \in [kind : {"struct", "variant"}, ident : Idents, rename : Renames, rule : RuleSet,
-               enum_rule : EnumRules, spelling : Spellings, enum_fields_rule : EnumFieldRules]
+               enum_rule : EnumRules, spelling : Spellings, enum_fields_rule : EnumFieldRules, layout : Layouts]
 Next == UNCHANGED c
 
 RECURSIVE Str(_)
@@ -55,8 +55,17 @@ SnakeFamily == {"snake_case", "SCREAMING_SNAKE_CASE", "kebab-case", "SCREAMING-K
 EffRule == RuleForField(Container)
 DeferredToC16 == c.rename = "none" /\ EffRule \in SnakeFamily /\ \E k \in DOMAIN IdentOf(c.ident).s : IsUpper(IdentOf(c.ident).s[k])
 FieldsRuleScope == c.enum_fields_rule # "none" => (c.kind = "variant" /\ c.enum_rule = "none" /\ c.spelling = "merged")
-Emit == ((c.kind = "struct" => c.enum_rule = "none") /\ FieldsRuleScope /\ ~DeferredToC16) =>
-    PrintT(<<"REPLAY", ToJson([case |-> c, configs |-> Configs,
-        keys |-> << Str(FieldWire(IdentOf(c.ident).s, RenameOf(c.rename), RuleForField(Container))),
-                    Str(FieldWire(Neighbour, None, RuleForField(Container))) >>])>>)
+\* layout: the members of the container, in order. S = the field under test, N = the two-word neighbour plain_one, W = a one-word
+\* member (head / tail) that most rules leave alone. A backend that switches to an explicit binding (CodingKeys, quoted properties) as
+\* soon as ONE key needs it must do so wherever that member stands: first, in the middle, last, before a member that needs none.
+Word(w) == IF w = "head" THEN <<"h","e","a","d">> ELSE <<"t","a","i","l">>
+LayoutOf(l) == CASE l = "two" -> <<"S", "N">> [] l = "then_word" -> <<"S", "N", "tail">> [] l = "word_first" -> <<"head", "S", "N">>
+                 [] l = "subject_last" -> <<"N", "S">> [] l = "word_last_only" -> <<"S", "tail">> [] l = "between_words" -> <<"head", "S", "tail">>
+KeyOfMember(m) == IF m = "S" THEN Str(FieldWire(IdentOf(c.ident).s, RenameOf(c.rename), RuleForField(Container)))
+                  ELSE IF m = "N" THEN Str(FieldWire(Neighbour, None, RuleForField(Container)))
+                  ELSE Str(FieldWire(Word(m), None, RuleForField(Container)))
+LayoutScope == c.layout # "two" => (c.spelling = "merged" /\ c.enum_rule = "none" /\ c.enum_fields_rule = "none")
+Emit == ((c.kind = "struct" => c.enum_rule = "none") /\ FieldsRuleScope /\ LayoutScope /\ ~DeferredToC16) =>
+    PrintT(<<"REPLAY", ToJson([case |-> c, configs |-> Configs, members |-> LayoutOf(c.layout),
+        keys |-> [k \in 1..Len(LayoutOf(c.layout)) |-> KeyOfMember(LayoutOf(c.layout)[k])]])>>)
 =============================================================================
